@@ -166,6 +166,31 @@ class Env:
         self.vars[name] = v
 
 
+_NO_DEFAULT = object()
+
+
+def _init_constant(cls, name):
+    """the literal `self.<name> = <literal>` assigned in cls.__init__ (or a base's), when there is exactly one such assignment there"""
+    for k in cls.__mro__:
+        init = k.__dict__.get("__init__")
+        if not isinstance(init, types.FunctionType):
+            continue
+        try:
+            node, _ = SOURCES.funcdef(init)
+        except Exception:
+            continue
+        found = []
+        for st in ast.walk(node):
+            if isinstance(st, ast.Assign) and len(st.targets) == 1 and isinstance(st.targets[0], ast.Attribute) and isinstance(st.targets[0].value, ast.Name) \
+                    and st.targets[0].value.id == "self" and st.targets[0].attr == name:
+                found.append(st.value)
+        if len(found) == 1 and isinstance(found[0], ast.Constant):
+            return found[0].value
+        if found:
+            return _NO_DEFAULT
+    return _NO_DEFAULT
+
+
 class ReturnEx(Exception):
     def __init__(self, v):
         self.v = v
@@ -881,6 +906,12 @@ class Interp:
                     if isinstance(d, (classmethod, staticmethod)):
                         raise Unsupported("classmethod/staticmethod on symbolic object")
                     return d
+            dflt = _init_constant(cls, name)
+            if dflt is not _NO_DEFAULT:
+                # an attribute the harness object was not given but the class' own __init__ sets to a literal (a cache slot, a flag):
+                # the object is taken in that initial state (a reachable state: what is derived from it holds for fresh objects)
+                obj.attrs[name] = dflt
+                return dflt
             raise PyRaise(AttributeError(f"{cls.__name__} object has no attribute {name}"))
         if isinstance(obj, (SArr, SV)):
             return models.sym_attr(self, obj, name)
